@@ -835,9 +835,91 @@ def gen_C15(rng, count, tier):
 
 # ------------------------------------------------------------------------------------ C17
 
+C17_NAMES = [b"X-Auth-Token", b"x-auth-token", b"X-My-Token", b"Authorization", b"X-Auth-Toke"]
+
+
+def c17_data(rng):
+    keys = [pick(rng, [b"port", b"name", b"token", b"a"]) for _ in range(rng.randrange(0, 3))]
+    return "data:" + (",".join(hx(x) for x in dict.fromkeys(keys)) if keys else "-")
+
+
+def c17_req(rng, cur):
+    if rng.random() < 0.1:
+        return "req:none"
+    n = cur if rng.random() < 0.6 else pick(rng, C17_NAMES + [cur.upper()])
+    v = pick(rng, ["exact", "exact", "exact", "upper", "droplast", "braceless", "nul", "bom", "previous", "o_" + hx(b"guess"), "o_-", "o_" + hx(b"{}")])
+    return "req:%s:%s" % (hx(n), v)
+
+
+def c17_fault(rng):
+    """LocalFile::open() fails at construction: a directory occupies the advertised name (`block`)
+    before `create`; `unblock` takes it away at a random later point; updates / requests /
+    destruction / re-construction around it."""
+    toks = []
+    if rng.random() < 0.5:
+        toks.append("umask:" + pick(rng, ["000", "022", "027", "077", "002"]))
+    cur = b"X-Auth-Token"
+    if rng.random() < 0.3:
+        # an ordinary life first: the obstacle appears between destroy and create
+        toks.append("create")
+        for _ in range(rng.randrange(0, 3)):
+            toks.append(c17_data(rng) if rng.random() < 0.5 else c17_req(rng, cur))
+        toks.append("destroy")
+    elif rng.random() < 0.15:
+        toks += ["pre:" + pick(rng, ["666", "644", "600"]), "block"]      # occupied by a file: no-op
+        toks += ["create", "destroy"]
+    toks.append("block")
+    if rng.random() < 0.15:
+        toks.append("pre:" + pick(rng, ["666", "644"]))                   # no-op while blocked
+    toks.append("create")
+    shape = rng.randrange(10)
+    if shape < 3:
+        body = ["unblock", c17_data(rng), "destroy"]
+    elif shape < 6:
+        body = [c17_data(rng), "unblock", c17_data(rng), "destroy"]
+    else:
+        body = []
+        alive = True
+        for _ in range(rng.randrange(0, 7)):
+            k = rng.randrange(10)
+            if k < 4:
+                body.append(c17_data(rng))
+            elif k < 5:
+                cur = pick(rng, C17_NAMES)
+                body.append("hdrname:" + hx(cur))
+            elif k < 8:
+                body.append(c17_req(rng, cur))
+            elif k < 9:
+                body += ["destroy", "create"]
+                cur = b"X-Auth-Token"
+            else:
+                body.append(pick(rng, ["block", "umask:077", "umask:000"]))
+        body.insert(rng.randrange(len(body) + 1), "unblock")
+        if rng.random() < 0.3:
+            body.insert(rng.randrange(len(body) + 1), pick(rng, ["block", "unblock"]))
+        if rng.random() < 0.7:
+            body.append("destroy")
+    if shape < 6 and rng.random() < 0.5:
+        # requests anywhere before the destruction: admission does not depend on the obstacle
+        for _ in range(rng.randrange(1, 3)):
+            body.insert(rng.randrange(len(body)), c17_req(rng, cur))
+    toks += body
+    r = rng.random()
+    if r < 0.25:
+        toks += ["create", c17_req(rng, b"X-Auth-Token"), "destroy"]
+    elif r < 0.4:
+        toks += ["block", "create", c17_data(rng), "destroy", "unblock"]
+    elif r < 0.5:
+        toks.append("umask:022")
+    return toks
+
+
 def gen_C17(rng, count, tier):
-    names = [b"X-Auth-Token", b"x-auth-token", b"X-My-Token", b"Authorization", b"X-Auth-Toke"]
+    names = C17_NAMES
     for i in range(count):
+        if rng.random() < 0.2:
+            yield ("lauth", " ".join(c17_fault(rng)))
+            continue
         toks = []
         if rng.random() < 0.6:
             toks.append("umask:" + pick(rng, ["000", "022", "027", "077", "002"]))
@@ -849,18 +931,12 @@ def gen_C17(rng, count, tier):
         for _ in range(rng.randrange(0, 8)):
             k = rng.randrange(10)
             if k < 2:
-                keys = [pick(rng, [b"port", b"name", b"token", b"a"]) for _ in range(rng.randrange(0, 3))]
-                toks.append("data:" + (",".join(hx(x) for x in dict.fromkeys(keys)) if keys else "-"))
+                toks.append(c17_data(rng))
             elif k < 3:
                 cur = pick(rng, names)
                 toks.append("hdrname:" + hx(cur))
             elif k < 8:
-                if rng.random() < 0.1:
-                    toks.append("req:none")
-                else:
-                    n = cur if rng.random() < 0.6 else pick(rng, names + [cur.upper()])
-                    v = pick(rng, ["exact", "exact", "exact", "upper", "droplast", "braceless", "nul", "bom", "previous", "o_" + hx(b"guess"), "o_-", "o_" + hx(b"{}")])
-                    toks.append("req:%s:%s" % (hx(n), v))
+                toks.append(c17_req(rng, cur))
             elif k < 9:
                 toks.append("destroy")
                 toks.append("create")
